@@ -44,6 +44,8 @@ op = st.one_of(
     st.tuples(st.just("connect"), slot),
     st.tuples(st.just("connect"), st.integers(0, 2)),
     st.tuples(st.just("send"), slot, st.sampled_from([0, 3, 20, 300, 2000]), st.sampled_from([0, 1, -1])),
+    st.tuples(st.just("burst"), slot, st.integers(2, 6), st.sampled_from([0, 1, -1])),
+    st.tuples(st.just("connect-many"), st.lists(slot, min_size=2, max_size=4, unique=True)),
     st.tuples(st.just("ssend"), slot, st.sampled_from([0, 3, 20, 300, 2000]), st.sampled_from([0, 1, -1])),
     st.tuples(st.just("disconnect"), slot),
     st.tuples(st.just("silent"), slot),
@@ -81,6 +83,8 @@ class Automaton(object):
         self.shutdown_requested = False
         self.delivered = []    # (t, src, data) handed to the entry point
         self.n_connect = 0
+        self.watches = {}      # id(client obj) -> ConnWatch (observation only), attached at the connect event
+        self.handled = {}      # id(client obj) -> set of message seqnums handed to handle_message
 
     def on_event(self, e):
         ctx, w = self.ctx, self.w
@@ -113,7 +117,9 @@ class Automaton(object):
                 ctx.violation("connect-without-handshake", "connect for %s without a delivered challenge response under its key/token" % (e["addr"],))
             if w.ctxt.connections.get(c.addr) is not c:
                 ctx.violation("connect-object-mismatch", "connected object is not the one in the connection pool")
+            self.watches[k] = W.ConnWatch(c, w.clock)
         elif ev == "message":
+            self.handled.setdefault(k, set()).add(e["seqnum"])
             if stt != "connected":
                 ctx.violation("message-outside-session", "handle_message for %s while its state is %s" % (e["addr"], stt))
             if (("s", c.addr), e["msg"]) not in w.ledger.sent_count:
@@ -196,6 +202,22 @@ def body(ctx, c):
                     slots[k] = w.add_client(laddr=addrs[k])
                     slots[k].connect()
                     step(4)
+            elif name == "connect-many":
+                fresh = [k for k in o[1] if slots[k] is None or not slots[k].alive]
+                for k in fresh:
+                    slots[k] = w.add_client(laddr=addrs[k])
+                    slots[k].connect()          # all hellos leave in the same tick: the handshakes overlap
+                if len(fresh) > 1:
+                    flags.add("overlapping-handshakes")
+                step(4)
+            elif name == "burst":
+                k = o[1]
+                if live(k):
+                    for _ in range(o[2]):
+                        uid[0] += 1
+                        slots[k].send(W.payload_for(uid[0], 12), retry=o[3], callback=False)
+                    flags.add("multi-message-datagram")
+                    step(1)
             elif name == "reconnect":
                 k = o[1]
                 old = slots[k]
@@ -304,6 +326,14 @@ def body(ctx, c):
             ctx.violation("shutdown-ignored", "the server loop still runs 5 ticks after shutdown()")
         if w.thread_exc is not None:
             ctx.violation("server-loop-died", "an exception escaped the server loop: %r" % (w.thread_exc,))
+        # every application message a connected client's connection accepted was handed to the handler
+        for k, watch in auto.watches.items():
+            if k in auto.sdisc:
+                continue     # a server-side disconnect legitimately discards what was queued
+            for mseq, recs in watch.messages.items():
+                if any(r[4] == W.T_APP for r in recs) and mseq not in auto.handled.get(k, ()):
+                    ctx.violation("accepted-message-not-handled", "client %s: application message seq %d was accepted by its connection (t=%.3f) but never reached handle_message" % (
+                        auto.objs[k].addr, mseq, recs[0][0]))
         for k, stt in auto.state.items():
             if stt != "disconnected":
                 ctx.violation("no-disconnect-at-shutdown", "client %s connected but never got a disconnect event" % (auto.objs[k].addr,))
@@ -330,7 +360,7 @@ def run_shard(spec, ctx):
         ctx.label("connects=%d" % min(n_conn, 4))
         for f in flags:
             ctx.label(f)
-        if overl and flags & {"exception", "reconnect-while-old-session-alive", "reconnect-after-session-ended", "token-pool-collision"}:
+        if overl and flags & {"exception", "reconnect-while-old-session-alive", "reconnect-after-session-ended", "token-pool-collision", "overlapping-handshakes"}:
             import hashlib
             import json
             ctx.nt(hashlib.sha256(json.dumps(c, sort_keys=True).encode()).hexdigest()[:16])
